@@ -15,6 +15,7 @@
  */
 #pragma once
 
+#include <unifex/detail/verif_hooks.hpp>
 #include <unifex/config.hpp>
 #include <unifex/async_manual_reset_event.hpp>
 #include <unifex/get_stop_token.hpp>
@@ -74,6 +75,7 @@ struct _attach_op_base<Receiver>::type {
   void request_stop() noexcept {
     // try to increment the refcount from 1 to 2
     std::size_t expected{1};
+    UNIFEX_VERIF_POINT(241);
     if (!refcount_.compare_exchange_strong(
             expected, 2, std::memory_order_relaxed)) {
       // we didn't get to increment from one to two so either the count was
@@ -94,6 +96,7 @@ struct _attach_op_base<Receiver>::type {
 
   Receiver* try_complete() noexcept {
     // decrement refcount and check the old count
+    UNIFEX_VERIF_POINT(242);
     if (refcount_.fetch_sub(1, std::memory_order_acq_rel) == 1) {
       // the old count was one so we've won the race to be the completer
       receiverCallback_.destruct();
